@@ -14,6 +14,7 @@ Section GlobalsProofs.
   Notation tstep := (tstep cell_init env).
   Notation run := (run cell_init env).
   Notation expected_reads := (expected_reads cell_init env).
+  Notation expected_reads_from := (expected_reads_from cell_init env).
 
   Definition cells_ok (g : gstate) : Prop := forall c v, cell_get c (g_cells g) = Some v -> v = cell_init c.
 
@@ -21,7 +22,7 @@ Section GlobalsProofs.
 
   (* thread t is running program prog correctly so far (prog: ANY steps) *)
   Definition good (prog : list step) (t : thread) : Prop :=
-    t_panicked t = false /\ t_reads t ++ expected_reads (t_todo t) = expected_reads prog.
+    t_panicked t = false /\ t_reads t ++ expected_reads_from (t_gen t) (t_todo t) = expected_reads prog.
 
   Lemma cell_eqb_eq a b : cell_eqb a b = true -> a = b.
   Proof. destruct a, b; cbn; intro H; try discriminate; reflexivity. Qed.
@@ -63,6 +64,7 @@ Section GlobalsProofs.
         * apply cell_eqb_eq in Ee. subst. intro H; injection H as <-. reflexivity.
         * apply Hcells.
     - (* SReadEnv *) cbn [fst snd]. split; [split; [reflexivity || exact Hpo | exact Hcells] | reflexivity].
+    - (* SGenName *) cbn [fst snd]. split; [split; [reflexivity || exact Hpo | exact Hcells] | exact I].
     - (* SLogStart *) cbn [fst snd]. split; [split; [reflexivity || exact Hpo | exact Hcells] | exact I].
     - (* SLogFinish *) cbn [fst snd]. split; [split; [reflexivity | exact Hcells] | exact I].
   Qed.
@@ -75,13 +77,22 @@ Section GlobalsProofs.
     unfold Globals.tstep in Hstep. rewrite Hpan in Hstep.
     destruct (t_todo t) as [|s rest] eqn:Etodo.
     { injection Hstep as <- <-. split; [exact HG|]. split; [exact Hpan|]. rewrite Etodo. exact Hreads. }
+    assert (s = SGenName \/ s <> SGenName) as [->|Hs] by (destruct s; (left; reflexivity) || (right; discriminate)).
+    { injection Hstep as <- <-. split; [exact HG|]. split; [reflexivity|]. cbn [t_reads t_todo t_gen].
+      cbn [Globals.expected_reads_from] in Hreads. rewrite <- app_assoc. exact Hreads. }
+    assert (tstep_rest : match gstep g (t_held t) s with
+             | (g1, ONone, h) => (g1, mkT rest (t_reads t) h (t_gen t) false)
+             | (g1, ORead v, h) => (g1, mkT rest (t_reads t ++ [v]) h (t_gen t) false)
+             | (g1, OPanic, h) => (g1, mkT [] (t_reads t) h (t_gen t) true)
+             end = (g', t')) by (destruct s; try exact Hstep; congruence).
+    clear Hstep.
     pose proof (gstep_inv g (t_held t) s HG) as [HG' Hout].
     destruct (gstep g (t_held t) s) as [[g1 o] h]. cbn [fst snd] in HG', Hout.
     destruct o as [|v|]; [| |destruct Hout].
-    - injection Hstep as <- <-. split; [exact HG'|]. split; [reflexivity|]. cbn [t_reads t_todo].
-      destruct s; try (exfalso; exact Hout); exact Hreads.
-    - injection Hstep as <- <-. split; [exact HG'|]. split; [reflexivity|]. cbn [t_reads t_todo].
-      destruct s; try (exfalso; exact Hout); subst v; cbn [Globals.expected_reads] in Hreads; rewrite <- app_assoc; exact Hreads.
+    - injection tstep_rest as <- <-. split; [exact HG'|]. split; [reflexivity|]. cbn [t_reads t_todo t_gen].
+      destruct s; try (exfalso; exact Hout); try exact Hreads. congruence.
+    - injection tstep_rest as <- <-. split; [exact HG'|]. split; [reflexivity|]. cbn [t_reads t_todo t_gen].
+      destruct s; try (exfalso; exact Hout); subst v; cbn [Globals.expected_reads_from] in Hreads; rewrite <- app_assoc; exact Hreads.
   Qed.
 
   Definition all_good (progs : list (list step)) (ts : list thread) : Prop :=
@@ -104,7 +115,7 @@ Section GlobalsProofs.
   Qed.
 
   Lemma spawn_good p : good p (spawn p).
-  Proof. unfold good, spawn. cbn [t_panicked t_todo t_reads]. split; reflexivity. Qed.
+  Proof. unfold good, spawn. cbn [t_panicked t_todo t_reads t_gen]. split; reflexivity. Qed.
 
   Lemma spawn_all_good progs : all_good progs (map spawn progs).
   Proof.
@@ -122,7 +133,7 @@ Section GlobalsProofs.
     intros HG i p t Hp Ht Hfin.
     destruct (run_good sched g (map spawn progs) progs HG (spawn_all_good progs)) as [_ [_ Hgood]].
     destruct (Hgood i p t Hp Ht) as [_ Hr].
-    unfold finished in Hfin. destruct (t_todo t); [|discriminate]. cbn in Hr. rewrite app_nil_r in Hr. exact Hr.
+    unfold finished in Hfin. destruct (t_todo t); [|discriminate]. cbn [Globals.expected_reads_from] in Hr. rewrite app_nil_r in Hr. exact Hr.
   Qed.
 
   (* no step can poison the lock or panic: every thread that was scheduled often enough finishes *)
@@ -171,9 +182,16 @@ Section GlobalsProofs.
       destruct (tstep g t) as [g' t'] eqn:Es. cbn [upd].
       assert (GInv g' /\ t_panicked t' = false /\ t_todo t' = p) as [HG' [Hpan' Htodo']].
       { unfold Globals.tstep in Es. rewrite Hpan, Htodo in Es.
+        assert (s = SGenName \/ s <> SGenName) as [->|Hs] by (destruct s; (left; reflexivity) || (right; discriminate)).
+        { injection Es as <- <-. auto. }
+        assert (Es' : match gstep g (t_held t) s with
+             | (g1, ONone, h) => (g1, mkT p (t_reads t) h (t_gen t) false)
+             | (g1, ORead v, h) => (g1, mkT p (t_reads t ++ [v]) h (t_gen t) false)
+             | (g1, OPanic, h) => (g1, mkT [] (t_reads t) h (t_gen t) true)
+             end = (g', t')) by (destruct s; try exact Es; congruence).
         pose proof (gstep_inv g (t_held t) s HG) as [HG1 Hout].
         destruct (gstep g (t_held t) s) as [[g1 o] h]. cbn [fst snd] in HG1, Hout.
-        destruct o; [| |destruct Hout]; injection Es as <- <-; auto. }
+        destruct o; [| |destruct Hout]; injection Es' as <- <-; auto. }
       apply IH; assumption.
   Qed.
 
@@ -235,5 +253,29 @@ Section GlobalsProofs.
     - intros i p t Hp Ht. split.
       + apply (never_panics g progs sched HG i t Ht).
       + intro Hf. apply (reads_schedule_independent g progs sched HG i p t Hp Ht Hf).
+  Qed.
+  (* what a call whose only reads are generated names reads: 0, 1, ..., k-1 -- whatever else it does in between *)
+  Definition reads_nothing_else (s : step) : bool := match s with SGetOrInit _ | SReadEnv => false | _ => true end.
+  Definition is_gen (s : step) : bool := match s with SGenName => true | _ => false end.
+
+  Lemma expected_names_from p : forall k, forallb reads_nothing_else p = true ->
+    expected_reads_from k p = map N.of_nat (seq k (length (filter is_gen p))).
+  Proof.
+    induction p as [|s p IH]; intros k H; [reflexivity|].
+    cbn [forallb] in H. apply andb_true_iff in H as [Hs H].
+    destruct s; cbn [reads_nothing_else] in Hs; try discriminate Hs; cbn [Globals.expected_reads_from filter is_gen]; try (apply IH; exact H).
+    cbn [length seq map]. f_equal. apply IH. exact H.
+  Qed.
+
+  (* generated-name state per call is a function of the call alone: after any history, among any threads, under any schedule *)
+  Theorem generated_names_per_call hist progs sched i p t :
+    let g := fold_left hstep hist g_init in
+    forallb reads_nothing_else p = true ->
+    nth_error progs i = Some p -> nth_error (snd (run g (map spawn progs) sched)) i = Some t -> finished t = true ->
+    t_reads t = map N.of_nat (seq 0 (length (filter is_gen p))).
+  Proof.
+    intros g Hp Hi Ht Hf.
+    destruct (concurrent_api_independent hist progs sched) as [_ H]. destruct (H i p t Hi Ht) as [_ Hr].
+    rewrite (Hr Hf). apply expected_names_from. exact Hp.
   Qed.
 End GlobalsProofs.
